@@ -75,3 +75,28 @@ package logging
 //@   ensures (err == nil) <==> (p != nil)
 //@   ensures authenticated-bytes-are-the-text-before-the-integrity-field: err == nil ==> len(p.RawData) + len(DataSplitToken) <= len(rawData) && forall(i, 0, len(p.RawData), p.RawData[i] == rawData[i]) && forall(j, 0, len(DataSplitToken), rawData[len(p.RawData) + j] == DataSplitToken[j])
 //@   at call strings.Split : assert arg[0] == rawData && arg[1] == DataSplitToken
+
+// ---- CEF formatter side of the chain (C20): what the verifier authenticates is the text before the last " integrity=".
+// For that to be the text the producer authenticated, whatever messages and fields contain, every value that is written
+// into a CEF line - header piece, extension key or extension value - first goes through the one escaping function, and
+// that function turns line breaks into spaces and escapes the three separators of the format: backslash, '|' and '='
+// (so a message cannot contain a look-alike " integrity=" field). The escape table is pinned call by call.
+//@ func prepareString(value string) (out string)
+//@   props C20
+//@   at call strings.Replace#0 : assert arg[1] == "\n" && arg[2] == " " && arg[3] == -1 && arg[0] == ret(strings.TrimSpace)[0]
+//@   at call strings.Replace#1 : assert arg[1] == "\t" && arg[2] == " " && arg[3] == -1 && arg[0] == ret(strings.Replace#0)[0]
+//@   at call strings.Replace#2 : assert arg[1] == "\\" && arg[2] == "\\\\" && arg[3] == -1 && arg[0] == ret(strings.Replace#1)[0]
+//@   at call strings.Replace#3 : assert arg[1] == "|" && arg[2] == "\\|" && arg[3] == -1 && arg[0] == ret(strings.Replace#2)[0]
+//@   at call strings.Replace#4 : assert equals-sign-escaped: arg[1] == "=" && arg[2] == "\\=" && arg[3] == -1 && arg[0] == ret(strings.Replace#3)[0]
+//@   ensures fully-escaped-result: out == ret(strings.Replace#4)[0]
+
+//@ func (f *CEFTextFormatter) appendValue(b *bytes.Buffer, value interface{})
+//@   props C20
+//@   noinline prepareString
+//@   at call Buffer.WriteString : assert only-escaped-text-is-written: arg[0] == " " || arg[0] == ret(prepareString)[0]
+
+//@ func (f *CEFTextFormatter) appendCEFLogPiece(b *bytes.Buffer, value interface{})
+//@   props C20
+//@   noinline appendValue
+//@   at call CEFTextFormatter.appendValue : assert arg[0] == b && arg[1] == value
+//@   at call Buffer.WriteString : assert arg[0] == defaultMessageDivider
